@@ -131,46 +131,47 @@ func c20() []*Ob {
 					}
 				}
 				if fn := c.Fn("(*storeapi.docFieldsFilter).filterFields"); fn != nil {
-					allowFact := func(in ssa.Instruction) (bool, bool) {
-						return BoolFact(FactsAtInstr(in), func(v ssa.Value) bool {
+					allowFact := func(l Lifted) (bool, bool) {
+						return BoolFact(l.Facts(), func(v ssa.Value) bool {
 							l, ok := v.(*ssa.UnOp)
 							return ok && l.Op == token.MUL && IsFieldAddr(l.X, "pkg/storeapi.FetchRequest_FieldsFilter", "AllowList")
 						})
 					}
-					digs := CallsIn(fn, Callee("(*github.com/ozontech/insane-json.Node).Dig", "(*github.com/ozontech/insane-json.Root).Dig"))
+					// both branches may be written inline or as private helpers called under the mode test
+					digs := c.P.FindLifted(fn, CallSel(Callee("(*github.com/ozontech/insane-json.Node).Dig", "(*github.com/ozontech/insane-json.Root).Dig")))
 					if len(digs) == 0 {
 						c.Undecided("polarity:filterFields:dig", fn.Pos(), "filterFields no longer removes listed fields with Dig(field).Suicide()")
 					}
 					for _, d := range digs {
-						v, found := allowFact(d.(ssa.Instruction))
+						v, found := allowFact(d)
 						if found && !v {
-							c.Site(d.Pos(), "listed fields are removed only in block-list mode (!AllowList)")
+							c.Site(d.In.Pos(), "listed fields are removed only in block-list mode (!AllowList)")
 						} else {
-							c.Violation("polarity:filterFields:blocklist", d.Pos(), "listed fields are removed without the filter being in block-list mode (!AllowList)")
+							c.Violation("polarity:filterFields:blocklist", d.In.Pos(), "listed fields are removed without the filter being in block-list mode (!AllowList)")
 						}
 					}
-					cont := CallsIn(fn, Callee("slices.Contains"))
+					cont := c.P.FindLifted(fn, CallSel(Callee("slices.Contains")))
 					if len(cont) == 0 {
 						c.Undecided("polarity:filterFields:contains", fn.Pos(), "filterFields no longer tests membership with slices.Contains in allow-list mode")
 					}
 					for _, ct := range cont {
-						v, found := allowFact(ct.(ssa.Instruction))
+						v, found := allowFact(ct)
 						if !(found && v) {
-							c.Violation("polarity:filterFields:allowlist", ct.Pos(), "the keep-only-listed branch is not under AllowList")
+							c.Violation("polarity:filterFields:allowlist", ct.In.Pos(), "the keep-only-listed branch is not under AllowList")
 							continue
 						}
 						// appended for removal only when NOT contained
 						okNeg := false
-						for _, ap := range CallsIn(fn, Callee("builtin.append")) {
-							val, fnd := BoolFact(FactsAtInstr(ap.(ssa.Instruction)), func(x ssa.Value) bool { return x == ct.Value() })
+						for _, ap := range CallsIn(ct.In.Parent(), Callee("builtin.append")) {
+							val, fnd := BoolFact(FactsAtInstr(ap.(ssa.Instruction)), func(x ssa.Value) bool { return x == ct.Call().Value() })
 							if fnd && !val {
 								okNeg = true
 							}
 						}
 						if okNeg {
-							c.Site(ct.Pos(), "in allow-list mode exactly the fields NOT in the list are removed")
+							c.Site(ct.In.Pos(), "in allow-list mode exactly the fields NOT in the list are removed")
 						} else {
-							c.Violation("polarity:filterFields:allowlist-negation", ct.Pos(), "in allow-list mode a field is scheduled for removal without slices.Contains being false")
+							c.Violation("polarity:filterFields:allowlist-negation", ct.In.Pos(), "in allow-list mode a field is scheduled for removal without slices.Contains being false")
 						}
 					}
 				}
@@ -322,12 +323,22 @@ func c20() []*Ob {
 					c.Violation("order:doFetch:one-per-id", fn.Pos(), "doFetch no longer takes exactly one document and sends exactly one block per requested id (Next calls: %d, Send calls: %d)", len(nx), len(snd))
 				}
 				for _, name := range []string{"(disk.DocBlock).SetExt1", "(disk.DocBlock).SetExt2"} {
-					for _, s := range CallsIn(fn, Callee(name)) {
-						fromID := DerivesFrom(Arg(s, 0), func(v ssa.Value) bool {
+					stamps := c.P.FindLifted(fn, CallSel(Callee(name)))
+					if len(stamps) == 0 {
+						c.Violation("prov:doFetch:"+name+":none", fn.Pos(), "doFetch no longer stamps the response block with %s", name)
+					}
+					for _, l := range stamps {
+						s := l.Call()
+						fromID := c.P.DerivesFromIP(Arg(s, 0), func(v ssa.Value) bool {
 							_, f, _, ok := FieldOf(v)
 							return ok && (f == "MID" || f == "RID")
 						})
-						if fromID && len(snd) == 1 && Dominates(s.(ssa.Instruction), snd[0].(ssa.Instruction)) {
+						// where the stamping happens in doFetch itself: the instruction, or the call that leads to it
+						at := l.In
+						if len(l.Via) > 0 {
+							at = l.Via[0].(ssa.Instruction)
+						}
+						if fromID && len(snd) == 1 && Dominates(at, snd[0].(ssa.Instruction)) {
 							c.Site(s.Pos(), "%s is stamped from the requested id before Send", name)
 						} else {
 							c.Violation("prov:doFetch:"+name, s.Pos(), "the response block is not stamped with the requested id before it is sent")
